@@ -1,4 +1,10 @@
 # feature: typed terminals referenced by value in actions while no nonterminal has a type
+#! run 12 => n 2
+#! run 1+345 => n 1 | p 3 3
+#! pin scanBytes=false
+#! pin caseInsensitive=false
+#! pin nonBacktracking=false
+#! pin tokenColumn=false
 language @NAME@(go);
 
 package = "scratch/@NAME@"
@@ -15,6 +21,6 @@ num {int}: /[0-9]+/ { $$ = len(l.Text()) }
 %input Sum;
 
 Sum :
-    num                  { println($num) }
-  | Sum '+' num[r]       { println($r, $2) }
+    num                  { "scratch/rt".Record("n %d", $num) }
+  | Sum '+' num[r]       { "scratch/rt".Record("p %d %d", $r, $2) }
 ;
